@@ -81,3 +81,92 @@ contract(TOKENIZER, 'Lexer.parse_quote', 'C13', types={**LT, 'found_pair': 'list
 			'bs_run(source, end, index) == escapes + bs_run(source, end, index - escapes)'], decreases='index - escapes - end + 1',
 			hints_exit=['lemma_bs_run_cut(source, lo, end, index)']),
 	})
+
+# ---- block structure ---------------------------------------------------------------------------------------
+from contracts.common_lemmas import lemma_split_join  # noqa: E402,F401
+CT = {'self': 'Tokenizer', 'context': 'Tokenizer.Context', 'tokens': 'list[Token]', 'return': 'tuple[int, list[Token]]', 'dedents': 'list[Token]'}
+
+contract(TOKENIZER, 'Tokenizer.Context.to_nest', 'C13', types={'self': 'Tokenizer.Context'},
+	modifies=['self._indent_spaces'], raises={'ZeroDivisionError': 'spaces != 0 and self._indent_spaces == 0'},
+	ensures=['result == nest_of(old(self), spaces)',
+		# the unit is fixed by the first non-zero width and never changes afterwards
+		'self._indent_spaces == (spaces if old(self._indent_spaces) == -1 and spaces != 0 else old(self._indent_spaces))'])
+
+contract(TOKENIZER, 'Tokenizer.handle_symbol', 'C13', types=CT,
+	requires=['0 <= begin', 'begin < len(tokens)'],
+	modifies=['context'], raises={},
+	ensures=[
+		# Top: bracket depth bookkeeping; the symbol itself is passed through
+		'result[0] == begin + 1', 'len(result[1]) == 1 and result[1][0] == tokens[begin]',
+		'context.enclosure == old(context.enclosure) + (1 if tokens[begin]._type in [T_ParenL, T_BraceL, T_BracketL] else (-1 if tokens[begin]._type in [T_ParenR, T_BraceR, T_BracketR] else 0))',
+		'context.nest == old(context.nest)', 'context._indent_spaces == old(context._indent_spaces)',
+	])
+
+
+contract(TOKENIZER, 'Tokenizer.handle_white_space', 'C13', types=CT,
+	requires=['0 <= begin', 'begin < len(tokens)', 'context.nest >= 0', 'context._indent_spaces != 0',
+		'tokens[begin]._type in [T_WhiteSpace, T_LineBreak, T_EOF]', 'implies(tokens[begin]._type == T_EOF, len(tokens[begin]._string) > 0)',
+		# consistent layout (the statement's "any consistent space width"): indentation deepens by one level at a time
+		'implies(tokens[begin]._type == T_LineBreak and context.enclosure <= 0, nest_of(context, indent_of(tokens[begin])) <= context.nest + 1 and nest_of(context, indent_of(tokens[begin])) >= 0)'],
+	hints_entry=["lemma_split_join(tokens[begin]._string, '\\n')"],
+	modifies=['context'], raises={},
+	ensures=[
+		'begin < result[0]',
+		# Top: inside brackets, and for plain blanks, no statement-end / block markers are emitted and the block context is untouched
+		'implies(old(context.enclosure) > 0 or tokens[begin]._type == T_WhiteSpace, len(result[1]) == 0 and context == old(context))',
+		# Top: indents and dedents balance -- each call emits exactly (new depth - old depth) block markers
+		'implies(old(context.enclosure) <= 0 and tokens[begin]._type != T_WhiteSpace, len(result[1]) >= 1 and result[1][0]._type == T_NewLine)',
+		'implies(old(context.enclosure) <= 0 and tokens[begin]._type != T_WhiteSpace and context.nest > old(context.nest), context.nest == old(context.nest) + 1 and len(result[1]) == 2 and result[1][1]._type == T_Indent)',
+		'implies(old(context.enclosure) <= 0 and tokens[begin]._type != T_WhiteSpace and context.nest <= old(context.nest), len(result[1]) == 1 + old(context.nest) - context.nest)',
+		'implies(tokens[begin]._type == T_EOF and old(context.enclosure) <= 0, context.nest == 0)',
+		'context.enclosure == old(context.enclosure)',
+	])
+
+# ---- closed obligations and the bounded twin ------------------------------------------------------------------
+TRUSTED_BASE = ["Python's lexical rules for names, decimal numbers and single-quoted string literals as written in specs/lexspec.py and the clauses above (a quote closes unless preceded by an odd number of backslashes)",
+	'character tables are read from the real TokenDefinition constructor on every run', 'Enum members are modelled by their integer values']
+ASSUMPTIONS = ['triple-quoted literals, the two-character backslash-quote openers, comments, post_filter (regular expressions) and the dispatch through handler tables (_rebuild, parse_impl) are covered by the bounded twin only',
+	'whole-sequence equality with CPython\'s tokenize and the layout metamorphism are relational: bounded twin', 'consistent layout (indentation deepens one level at a time) is a precondition of the block-structure clauses']
+
+
+def closed_operator_table():
+	"""Closed obligation by evaluation: on every 1-3 character operator string of CPython's table that uses only tranp's symbol characters, parse_symbol takes
+	the same longest match as CPython -- except the operators the shipped grammar does not have (listed) and the documented unary-minus marking."""
+	import os, sys, token as pytok
+	repo = os.environ.get('PYVC_REPO', '/repo')
+	if repo not in sys.path:
+		sys.path.insert(0, repo)
+	from rogw.tranp.implements.syntax.tranp.tokenizer import Lexer
+	from rogw.tranp.implements.syntax.tranp.token import TokenDefinition
+	d = TokenDefinition()
+	lx = Lexer(d)
+	not_in_grammar = {'//', '//=', '**=', '<<=', '>>=', '@='}
+	bad, n = [], 0
+	for op in sorted(pytok.EXACT_TOKEN_TYPES):
+		if not all(ch in d.symbol for ch in op) or op in not_in_grammar:
+			continue
+		n += 1
+		end, tok = lx.parse_symbol(op + ' x', 0)
+		text = '-' if tok.string == '\\\\OP_UNARY_MINUS'.replace('\\\\\\\\', '\\\\') else tok.string
+		if (end, text) != (len(op), op):
+			bad.append((op, tok.string))
+	return n, bad, sorted(not_in_grammar)
+
+
+def extra_checks(tier, seed, active_known):
+	from pyvc.driver import Extra
+	from twins import lex_twin
+	n0, bad, skipped = closed_operator_table()
+	closed = Extra(name='parse_symbol takes CPython\'s longest operator match on every operator of token.EXACT_TOKEN_TYPES over tranp\'s symbol characters', kind='closed', ok=not bad, cases=n0, exhaustive=True,
+		detail=f'{n0} operators; not in the shipped grammar and therefore outside the supported subset: {skipped}; mismatches: {bad[:4]}')
+	if bad:
+		closed.violation = {'what': f'operator {bad[0][0]!r} is lexed as {bad[0][1]!r}', 'function': 'rogw/tranp/implements/syntax/tranp/tokenizer.py:Lexer.parse_symbol', 'inputs': {'operator': bad[0][0]}, 'clause': 'longest operator match'}
+	n, distinct, fails = lex_twin.run(tier, seed)
+	x = Extra(name='token sequence == CPython tokenize; raw tokens partition the source and spans address their text; INDENT/DEDENT balance; layout metamorphism', kind='bounded', ok=not fails, cases=n,
+		bound='150 (quick) / 1500 (thorough) generated sources: names, decimal ints/floats, quoted/raw/f/triple-quoted strings with escapes, single and combined operators, brackets spanning lines (also before the first block), block nesting <= 3; 7 layout rewrites each',
+		detail=f'{distinct} distinct sources, {len(fails)} failures', samples=[{'source': 'a = f(a,\\n       b)\\nif x:\\n\\ty = "s\\\\\\\\"\\n', 'verdict': 'equal to CPython, metamorphic'}])
+	x.distinct = distinct
+	if fails:
+		x.violation = {'what': fails[0]['what'], 'function': 'rogw/tranp/implements/syntax/tranp/tokenizer.py', 'inputs': fails[0], 'clause': 'tokens(s) == cpython_tokens(s) and tokens(w(s)) == tokens(s)'}
+		x.finding_key = 'lex-twin'
+	return [closed, x]
